@@ -251,6 +251,16 @@ def _apply(c, op, dom, impl, kind):
         return c[op[1]]
     if name == "isdisjoint":
         return bool(c.isdisjoint(_operand(dom, op[2], op[1], impl)))
+    if name == "ctor":
+        # a new container of the same class built from an iterable; the
+        # result is its listing
+        mapping = is_mapping(kind)
+        if mapping:
+            arg = _pairs(dom, op[2], op[1], impl)
+        else:
+            arg = _operand(dom, op[2], op[1], impl)
+        new = type(c)(arg)
+        return listing(new, mapping)
     if name == "minKey":
         return c.minKey() if len(op) == 1 else c.minKey(K(dom, op[1]))
     if name == "maxKey":
@@ -443,6 +453,13 @@ class Model(object):
             raise _ModelExc("IndexError")
         if name == "isdisjoint":
             return not (set(d) & set(op[1]))
+        if name == "ctor":
+            if self.mapping:
+                dd = {}
+                for k, v in op[1]:
+                    dd[k] = v
+                return [(dom.key(k), dom.val(dd[k])) for k in sorted(dd)]
+            return [dom.key(k) for k in sorted(set(op[1]))]
         if name == "minKey":
             return self._minmax(op, True)
         if name == "maxKey":
